@@ -75,3 +75,22 @@ Definition resolve_union (members : list str) : str :=
 Definition s_or_None : str := [32;124;32;78;111;110;101].
 Definition alias_type (members : list str) (nullable : bool) : str :=
   resolve_union members ++ (if nullable then s_or_None else []).
+
+(* ---- the collector when variants DECLARE an enum on their discriminator property ([own]: variant -> values).
+   "Check for inline enum values first": a variant whose property still is its own enum contributes all its values;
+   once a union has re-typed the property (the variant is in [tab]) the inline enum is gone and the value comes from
+   the reverse mapping, as above.  [collect_o [] = collect] (Proofs.UnionGen.collect_o_nil). *)
+Definition collected_o (own tab : ptab) (u : dunion) : list str :=
+  flat_map (fun v => match (match alookup v tab with Some _ => None | None => alookup v own end) with
+                     | Some vals => vals
+                     | None => match rev_value (du_mapping u) v with Some d => [d] | None => [] end
+                     end) (du_variants u).
+Definition process_o (own tab : ptab) (u : dunion) : ptab :=
+  match collected_o own tab u with
+  | [] => tab
+  | vals => fold_left (fun t v => aset t v vals) (du_variants u) tab
+  end.
+Definition collect_o (own : ptab) (us : list dunion) : ptab := fold_left (process_o own) us [].
+(* members of the enum finally typing V's discriminator property: the unified one, else its own, else plain str *)
+Definition final_enum (own : ptab) (us : list dunion) (V : str) : option (list str) :=
+  match alookup V (collect_o own us) with Some x => Some x | None => alookup V own end.
